@@ -269,6 +269,10 @@ type directStats struct {
 	f7File, f7Msg, f7SelfChecked                      atomic.Int64
 	deduped, reordered, multiSuite                    atomic.Int64
 	unknownPos                                        atomic.Int64
+	// A4: names with / without the extension, names whose stem is empty or ends in a character of the extension,
+	// two-annotation sets, and those whose two different files share the name without the extension
+	namesWithExt, namesWithoutExt, namesStemTailInExt atomic.Int64
+	namePairs, namePairsSameStem                      atomic.Int64
 }
 
 func hasNewline(set []ann) bool {
@@ -681,5 +685,55 @@ func setOrder(r *evid.Run, st *directStats) {
 			r.Distinct("A3|" + strings.Join(key, "|"))
 		}
 		r.SampleEvery(i, 15013, func() any { return directCase{Space: "A3-set-order", Input: input, Expected: want} })
+	})
+}
+
+// nameFragments spell file names around the extension every buf input file carries: the letters of the
+// extension as the tail of the stem, the extension itself (once, twice, in the middle, as the whole name, without
+// its dot), directories.
+var nameFragments = []string{"a", "p", "r", "o", "t", ".", "/", ".proto", "proto"}
+
+const protoExt = ".proto"
+
+// fileNames: every file name of <= 3 name fragments as a one-annotation set, and every ordered pair of the
+// names of <= 2 fragments over {a, t, /, .proto} as a two-annotation set (two files whose names differ only
+// around the extension: which suite an annotation lands in, in which order). A format that derives a field from
+// the file name (JUnit: suite name = name without the extension) must name the same file as the others.
+func fileNames(r *evid.Run, st *directStats) {
+	names := fragmentStrings(nameFragments, 1, 3)
+	pairPool := fragmentStrings([]string{"a", "t", "/", protoExt}, 1, 2)
+	r.Set("A4_name_fragments", nameFragments)
+	r.Set("A4_names", len(names))
+	r.Set("A4_pair_pool", len(pairPool))
+	np := len(pairPool)
+	r.Set("A4_pairs", np*np)
+	base := ann{SL: 12, SC: 1, EL: 12, EC: 12, Type: "RULE_ID", Msg: "m"}
+	r.ParallelFor(len(names)+np*np, 0, func(i int) {
+		if i < len(names) {
+			a := base
+			a.Path = names[i]
+			checkSet(r, st, "A4-file-names", []ann{a})
+			r.Distinct("A4|" + a.Path)
+			if stem, ok := strings.CutSuffix(a.Path, protoExt); ok {
+				st.namesWithExt.Add(1)
+				if stem == "" || strings.ContainsAny(stem[len(stem)-1:], protoExt) {
+					st.namesStemTailInExt.Add(1)
+				}
+			} else {
+				st.namesWithoutExt.Add(1)
+			}
+			r.SampleEvery(i, 211, func() any { return directCase{Space: "A4-file-names", Input: []ann{a}} })
+			return
+		}
+		j := i - len(names)
+		a, b := base, base
+		a.Path, b.Path = pairPool[j/np], pairPool[j%np]
+		b.Type = "RULE_B"
+		checkSet(r, st, "A4-file-names", []ann{a, b})
+		st.namePairs.Add(1)
+		if a.Path != b.Path && strings.TrimSuffix(a.Path, protoExt) == strings.TrimSuffix(b.Path, protoExt) {
+			st.namePairsSameStem.Add(1)
+		}
+		r.Distinct("A4|" + a.Path + "|" + b.Path)
 	})
 }
